@@ -10,3 +10,4 @@ CONSTANTS
   RecTypes = {}
   MaxRecs = 0
   WithQuery = TRUE
+  DistinctTs = FALSE
